@@ -42,7 +42,7 @@ TRUSTED = [
 
 DRIVERS = {
     "ks": {"kind": "gotest", "pkg": "services/keepstore", "test": "TestVerifC02", "min_chunk": 4,
-           "timeout": 3000},
+           "timeout": 7200},
 }
 
 INSTRUMENT = "/verif/build/instrument"
@@ -273,8 +273,8 @@ def _mv_random_vols(rng):
 def _mv_family(rng, exhaustive):
     cases = []
     configs = list(MV_FIXED) if exhaustive else rng.sample(MV_FIXED, 9)
-    configs += [_mv_random_vols(rng) for _ in range(30 if exhaustive else 5)]
-    for vols in configs:
+    configs += [_mv_random_vols(rng) for _ in range(8 if exhaustive else 5)]
+    for ci, vols in enumerate(configs):
         b = _spec(rng, rng.choice(["zero", "one", "small", "small", "small", "big"] if exhaustive else ["one", "small", "small", "small", "big"]))
         if b.startswith("0.") and any(v[0] in "cl" for v in vols) is False and rng.random() < 0.5:
             b = _spec(rng, "small")
@@ -282,7 +282,10 @@ def _mv_family(rng, exhaustive):
         head = f"mv {b}:{','.join(vols)}:"
         cases.append(head + "run")
         if exhaustive:
-            cases += [head + f"k{i}" for i in range(n)] + [head + f"c{i}" for i in range(n)]
+            # every point of every volume as a kill point; as a cancellation point for every second configuration
+            # (the others: three sampled points)
+            cs = list(range(n)) if ci % 2 == 0 else sorted(rng.sample(range(n), min(3, n)))
+            cases += [head + f"k{i}" for i in range(n)] + [head + f"c{i}" for i in cs]
         elif n > 0:
             ks = {rng.randrange(n), rng.randrange(n)}
             cases += [head + f"k{i}" for i in sorted(ks)] + [head + f"c{rng.randrange(n)}"]
